@@ -259,7 +259,14 @@ func randGeom(rng *rand.Rand, gt gpkg.GeometryType, i int, emptyShare int) geom.
 			return geom.MultiPolygon{}
 		case gpkg.Polygon:
 			return geom.Polygon{}
+		case gpkg.MultiLinestring:
+			return geom.MultiLineString{}
+		case gpkg.GeometryCollection:
+			return geom.Collection{}
 		}
+	}
+	if gt == gpkg.Geometry { // a table of mixed geometries
+		gt = []gpkg.GeometryType{gpkg.Point, gpkg.Linestring, gpkg.Polygon, gpkg.MultiPolygon, gpkg.MultiPoint, gpkg.MultiLinestring}[rng.Intn(6)]
 	}
 	switch gt {
 	case gpkg.Point:
@@ -272,6 +279,10 @@ func randGeom(rng *rand.Rand, gt gpkg.GeometryType, i int, emptyShare int) geom.
 		return geom.Polygon{{{x, y}, {x + 4, y}, {x + 4, y + 4}, {x, y + 4}}}
 	case gpkg.MultiPolygon:
 		return geom.MultiPolygon{{{{x, y}, {x + 4, y}, {x, y + 4}}}, {{{x + 10, y}, {x + 14, y}, {x + 10, y + 4}}}}
+	case gpkg.MultiLinestring:
+		return geom.MultiLineString{{{x, y}, {x + 3, y + 1}}, {{x + 5, y - 2}, {x + 6, y + 7}, {x + 8, y}}}
+	case gpkg.GeometryCollection:
+		return geom.Collection{geom.Point{x, y}, geom.LineString{{x + 1, y + 1}, {x + 6, y + 2}}}
 	}
 	return geom.Point{x, y}
 }
@@ -392,7 +403,7 @@ func scratchBase() string {
 func checkC12(e *env) {
 	r := e.res
 	r.Rule = "the real gpkg.SourceGeopackage -> gpkg.TargetGeopackage.WriteFeatures on real SQLite (stub spatialite driver, tag verif): feature counts 0..3p+1 for page sizes p = 1..7 (all pairs) plus random larger pairs, " +
-		"tables with an INTEGER primary key (ascending, or descending with gaps), 0..4 further INTEGER/REAL/TEXT columns with NULLs, geometry column at any position, POINT/LINESTRING/POLYGON/MULTIPOLYGON/MULTIPOINT with " +
+		"tables with an INTEGER primary key (ascending, or descending with gaps), 0..4 further INTEGER/REAL/TEXT columns with NULLs, geometry column at any position, all eight geometry types a GeoPackage can declare (POINT, LINESTRING, POLYGON, MULTIPOINT, MULTILINESTRING, MULTIPOLYGON, GEOMETRYCOLLECTION, GEOMETRY with mixed content) with " +
 		"a share of empty geometries (also all-empty tables), srs 28992/4326/3857; the target file is read back (rows in rowid order, rtree table, gpkg_contents, gpkg_geometry_columns, table_info) and compared with the source. " +
 		"Then sources with 2..4 tables written through one source and one target object, table after table, as main.go does. Model: op page (page sizes of the paging function). Non-trivial = count > page size with count mod page size in {0, 1, p-1} or some empty geometry; distinct by (p, n, table shape)."
 	dir, err := os.MkdirTemp(scratchBase(), "vh-c12-")
@@ -401,7 +412,7 @@ func checkC12(e *env) {
 		return
 	}
 	defer os.RemoveAll(dir)
-	gts := []gpkg.GeometryType{gpkg.Point, gpkg.Linestring, gpkg.Polygon, gpkg.MultiPolygon, gpkg.MultiPoint}
+	gts := []gpkg.GeometryType{gpkg.Point, gpkg.Linestring, gpkg.Polygon, gpkg.MultiPolygon, gpkg.MultiPoint, gpkg.MultiLinestring, gpkg.GeometryCollection, gpkg.Geometry}
 	type pn struct{ p, n int }
 	var cases []pn
 	for p := 1; p <= 7; p++ {
@@ -427,6 +438,7 @@ func checkC12(e *env) {
 		}
 		op := fmt.Sprintf("page %d %d", c.p, c.n)
 		desc := fmt.Sprintf("%s | table %s: key %s, %d attribute column(s), geometry column %q at position %d, %v, srs %d, empty share %d%%", op, t.name, t.cols[0].ctype, len(t.cols), t.gcol, t.gpos, t.gtype, t.srs, emptyShare)
+		mark("C12 single table: " + desc)
 		var source tgpkg.SourceGeopackage
 		source.Init(src)
 		tables := source.GetTableInfo()
@@ -447,6 +459,7 @@ func checkC12(e *env) {
 		target.WriteFeatures(ch)
 		target.Close()
 		source.Close()
+		unmark()
 		got, err := readBack(dst, t.name, t.gcol)
 		srcBack, err2 := readBack(src, t.name, t.gcol)
 		nontrivial := (c.n > c.p && (c.n%c.p == 0 || c.n%c.p == 1 || c.n%c.p == c.p-1)) || emptyShare > 0
@@ -491,6 +504,11 @@ func checkC12(e *env) {
 			r.Notes = append(r.Notes, "could not write a source: "+err.Error())
 			continue
 		}
+		md := fmt.Sprintf("C12 several tables through one target, page size %d:", p)
+		for _, t := range ts {
+			md += fmt.Sprintf(" %s(%d rows, %v)", t.name, len(t.geoms), t.gtype)
+		}
+		mark(md)
 		var source tgpkg.SourceGeopackage
 		source.Init(src)
 		tables := source.GetTableInfo()
@@ -508,6 +526,7 @@ func checkC12(e *env) {
 		}
 		target.Close()
 		source.Close()
+		unmark()
 		if len(tables) != nt {
 			r.violation(Violation{Oracle: "source-table-info", Op: fmt.Sprintf("multi page %d", p), Detail: fmt.Sprintf("%d tables found, %d written", len(tables), nt)})
 		}
